@@ -8,6 +8,7 @@ package backend
 //@ global [noPrefixEnd] len(noPrefixEnd) == 1 && noPrefixEnd[0] == 0
 //@ global [tombstone] bytes_eq(tombStoneBytes, "tombstone")
 //@ global [events] bytes_eq(events, "/events/")
+//@ global [drift] ErrRevisionDriftBack != nil
 
 // ---- C10: range / prefix bounds ----
 
@@ -24,3 +25,110 @@ package backend
 //@ func uint64ToBytes(n) (result)
 //@   props C10
 //@   ensures [be8] len(result) == 8 && be64_of(result) == n && fresh(result)
+
+// ---- write path: C01 (batch shapes), C02 (per-key order), C04 (every dealt revision is reported) ----
+
+// pending is the revision dealt by the current request and not yet reported to the
+// sequencer (0: none). The public write paths start and end with pending == 0.
+//@ ghost pending (_ BitVec 64)
+
+//@ pred wf_backend(b) = b != nil && len(b.watchEventsRingBuffer) == watchersChanCapacity && b.kv != nil && b.coder != nil && b.tso != nil && b.creator != nil && b.metricCli != nil
+
+// the sequencer slot store is the "report": it clears pending when it carries that revision
+//@ func @sync/atomic.(*Value).Store(val)
+//@   ghost_only
+//@   modifies ghost.pending
+//@   ensures [report] pending == ite(typeis(val, "*common.WatchEvent") && asptr(val, "*common.WatchEvent") != nil && asptr(val, "*common.WatchEvent").Revision == old(pending), uint64(0), old(pending))
+
+//@ func (*backend).GetCurrentRevision() (result)
+//@   props C04
+//@   requires b != nil && b.tso != nil
+
+//@ func (*backend).deal(prevRevision) (rev, err)
+//@   props C04 C02
+//@   requires wf_backend(b) && pending == 0
+//@   modifies ghost.pending ghost.max_issued
+//@   ensures [pending] pending == rev
+//@   ensures [fresh] err == nil ==> rev > old(max_issued) && max_issued == rev && rev != 0 && rev < 0x8000000000000000
+//@   ensures [not-below-prev] err == nil && prevRevision > 0 ==> rev >= prevRevision
+//@   ensures [drift-only-with-prev] err != nil && prevRevision == 0 ==> rev == 0
+//@   ensures [err-kept-revision] err != nil ==> rev == 0 || rev < 0x8000000000000000
+
+//@ func (*backend).mustDeal(prevRev) (rev)
+//@   props C04
+//@   requires wf_backend(b) && pending == 0
+//@   modifies ghost.pending ghost.max_issued
+//@   ensures [pending] pending == rev && (rev == 0 || rev < 0x8000000000000000)
+
+//@ func (*backend).update(ctx, oldRevision, key, value, lease) (revision, err)
+//@   props C01 C02 C04
+//@   requires wf_backend(b) && pending == 0 && !batch_open
+//@   modifies ghost.pending ghost.max_issued ghost.bw_n ghost.bw_kind ghost.bw_key ghost.bw_val ghost.bw_old ghost.bw_ttl ghost.commits ghost.last_batch ghost.last_err ghost.batch_open ghost.floor ghost.floor_set
+//@   ensures [dealt-is-returned] pending == revision
+//@   ensures [range] revision == 0 || revision < 0x8000000000000000
+//@   ensures [one-batch] commits == old(commits) || (commits == old(commits)+1 && last_err == err && bw_n[last_batch] == 2)
+//@   ensures [no-batch-means-error] commits == old(commits) ==> err != nil
+//@   ensures [index-cas] commits == old(commits)+1 ==> bw_kind[last_batch][0] == 2 && is_enc(bw_key[last_batch][0], key, uint64(0)) && len(bw_val[last_batch][0]) == 8 && be64_of(bw_val[last_batch][0]) == revision && len(bw_old[last_batch][0]) == 8 && be64_of(bw_old[last_batch][0]) == oldRevision
+//@   ensures [object-put] commits == old(commits)+1 ==> bw_kind[last_batch][1] == 3 && is_enc(bw_key[last_batch][1], key, revision) && bw_val[last_batch][1] == value
+//@   ensures [newer] commits == old(commits)+1 ==> revision > old(max_issued) && revision >= oldRevision
+//@   ensures [closed] !batch_open
+
+//@ func (*backend).notify(ctx, key, val, revision, preRevision, valid, eventType, err)
+//@   props C04 C06
+//@   requires wf_backend(b)
+//@   requires [range] revision < 0x8000000000000000
+//@   requires [after-batch] !batch_open
+//@   may_panic
+//@   modifies ghost.pending []atomic.Value
+//@   ensures [reported] revision != 0 && revision == old(pending) ==> pending == 0
+//@   ensures [zero-ignored] revision == 0 ==> pending == old(pending)
+
+//@ func (*backend).get(ctx, key, revision) (val, modRevision, err)
+//@   assumed
+//@   ensures [not-found-is-error] is_nil(val) && err == nil ==> false
+
+//@ func (*backend).create(ctx, key, value) (revision, err)
+//@   props C04 C17
+//@   requires wf_backend(b) && pending == 0 && !batch_open
+//@   modifies ghost.pending ghost.max_issued ghost.bw_n ghost.bw_kind ghost.bw_key ghost.bw_val ghost.bw_old ghost.bw_ttl ghost.commits ghost.last_batch ghost.last_err ghost.batch_open ghost.floor ghost.floor_set
+//@   ensures [dealt-is-returned] pending == revision
+//@   ensures [range] revision == 0 || revision < 0x8000000000000000
+//@   ensures [closed] !batch_open
+
+//@ func (*backend).delete(ctx, oldRevision, key) (newRevision, old, err)
+//@   props C01 C02 C04
+//@   requires wf_backend(b) && pending == 0 && !batch_open
+//@   modifies ghost.pending ghost.max_issued ghost.bw_n ghost.bw_kind ghost.bw_key ghost.bw_val ghost.bw_old ghost.bw_ttl ghost.commits ghost.last_batch ghost.last_err ghost.batch_open ghost.floor ghost.floor_set
+//@   ensures [dealt-is-returned] pending == newRevision
+//@   ensures [range] newRevision == 0 || newRevision < 0x8000000000000000
+//@   ensures [closed] !batch_open
+
+//@ func (*backend).Create(ctx, put) (resp, err)
+//@   props C04
+//@   requires wf_backend(b) && put != nil && pending == 0 && !batch_open
+//@   modifies ghost.pending ghost.max_issued ghost.bw_n ghost.bw_kind ghost.bw_key ghost.bw_val ghost.bw_old ghost.bw_ttl ghost.commits ghost.last_batch ghost.last_err ghost.batch_open ghost.floor ghost.floor_set []atomic.Value
+//@   ensures [every-dealt-revision-reported] pending == 0
+
+//@ func (*backend).Update(ctx, r) (resp, err)
+//@   props C04
+//@   requires wf_backend(b) && r != nil && r.Kv != nil && pending == 0 && !batch_open
+//@   modifies ghost.pending ghost.max_issued ghost.bw_n ghost.bw_kind ghost.bw_key ghost.bw_val ghost.bw_old ghost.bw_ttl ghost.commits ghost.last_batch ghost.last_err ghost.batch_open ghost.floor ghost.floor_set []atomic.Value
+//@   ensures [every-dealt-revision-reported] pending == 0
+
+//@ func (*backend).Delete(ctx, r) (resp, err)
+//@   props C04
+//@   requires wf_backend(b) && r != nil && pending == 0 && !batch_open
+//@   modifies ghost.pending ghost.max_issued ghost.bw_n ghost.bw_kind ghost.bw_key ghost.bw_val ghost.bw_old ghost.bw_ttl ghost.commits ghost.last_batch ghost.last_err ghost.batch_open ghost.floor ghost.floor_set []atomic.Value
+//@   ensures [every-dealt-revision-reported] pending == 0
+
+//@ func responseHeader(rev) (result)
+//@   props C02 C04
+//@   ensures [header] result != nil && fresh(result) && result.Revision == rev
+
+//@ func maxUint64(a, b) (result)
+//@   props C02 C04
+//@   ensures [max] result >= a && result >= b && (result == a || result == b)
+
+//@ func minUint64(a, b) (result)
+//@   props C07 C09
+//@   ensures [min] result <= a && result <= b && (result == a || result == b)
